@@ -165,3 +165,23 @@ def interpolate_intervals(intervals: Arr(Real, None, 2), labels: Lst(ObjT), time
                                                    result[p] == labels[j])), label='label-of-the-last-containing-interval', props="C13")
     ensures(forall(0, m, lambda p: implies(forall(0, n, lambda j: not inside(intervals, j, time_points[p])), result[p] == fill_value)),
             label='fill-value-outside-every-interval', props="C13")
+
+
+# ----------------------------------------------------------------------------- intervals_to_samples
+@contract("mir_eval.util.intervals_to_samples", props="C13 C16 C12")
+def intervals_to_samples(intervals: Arr(Real, None, 2), labels: Lst(ObjT), offset: Real = 0.0, sample_size: Real = 0.1, fill_value: ObjT = None) -> Tup(Lst(Real), Lst(ObjT)):
+    """the sample grid k * sample_size + offset, k = 0 .. floor(max end / sample_size) - 1, and for each sample the label of the last listed
+    interval containing it (the fill value outside every interval)"""
+    n = length(intervals)
+    requires(n > 0, length(labels) == n, sample_size > 0, offset >= 0)
+    requires(forall(0, n, lambda i: intervals[i, 0] >= 0 and intervals[i, 0] <= intervals[i, 1]))
+    times, labs = result
+    m = length(times)
+    ensures(length(labs) == m, label='one-label-per-sample')
+    ensures(forall(0, m, lambda k: times[k] == k * sample_size + offset), label='uniform-grid', props="C13 C16")
+    ensures(exists(0, n, lambda i: m <= intervals[i, 1] / sample_size and forall(0, n, lambda j: intervals[j, 1] <= intervals[i, 1])
+                   and intervals[i, 1] / sample_size < m + 1), label='floor-of-the-duration', props="C16 C12")
+    ensures(forall2_rect(m, n, lambda p, j: implies(inside(intervals, j, times[p]) and forall(j + 1, n, lambda j2: not inside(intervals, j2, times[p])),
+                                                   labs[p] == labels[j])), label='label-of-the-last-containing-interval', props="C13 C16")
+    ensures(forall(0, m, lambda p: implies(forall(0, n, lambda j: not inside(intervals, j, times[p])), labs[p] == fill_value)),
+            label='fill-value-outside-every-interval', props="C13")
